@@ -255,3 +255,107 @@ func Harness_C04_SourceRunner() {
 	}
 	verif.Reached()
 }
+
+// verifSlowDownstream is an operator whose first `hold` HandleEventBatch calls block until the
+// harness releases them (back-pressure).
+type verifSlowDownstream struct {
+	proto.UnimplementedOperator
+	hold   int
+	gate   chan struct{}
+	held   int // calls currently blocked
+	stream []*workerpb.Event
+}
+
+func (o *verifSlowDownstream) ID() string   { return "o1" }
+func (o *verifSlowDownstream) Host() string { return "h" }
+func (o *verifSlowDownstream) HandleEventBatch(ctx context.Context, batch []*workerpb.Event) error {
+	if o.hold > 0 {
+		o.hold--
+		o.held++
+		<-o.gate
+		o.held--
+	}
+	o.stream = append(o.stream, batch...)
+	return nil
+}
+
+// verifManualTimer is a clocks.Timer whose expiry is driven by the harness (symbolically and natively).
+type verifManualTimer struct {
+	do func()
+}
+
+func (t *verifManualTimer) Set(d time.Duration, do func()) { t.do = do }
+func (t *verifManualTimer) Stop()                          { t.do = nil }
+
+func (t *verifManualTimer) fire() {
+	if cb := t.do; cb != nil {
+		t.do = nil
+		go cb()
+	}
+}
+
+// Harness_C04_BatchingOperator: the source runner's per-operator batching stage alone: N events
+// are handed to it one after another while the operator behind it may be slow (its first calls
+// block until released), batch time-outs expire at harness-chosen moments and the stage's
+// select takes any ready case. The operator must receive every event exactly once, in the
+// order they were handed over.
+func Harness_C04_BatchingOperator() {
+	verif.ExploreSelect(true)
+	ctx, cancel := context.WithCancel(context.Background())
+	defer cancel()
+	down := &verifSlowDownstream{hold: verif.Choose("slow-calls", 1+verif.Param("HOLD", 1)), gate: make(chan struct{})}
+	errs := make(chan error, 4)
+	timer := &verifManualTimer{}
+	bo := newBatchingOperator(ctx, down, batching.EventBatcherParams{MaxSize: verif.IntRange("batch", 1, 2), MaxDelay: time.Second, Timer: timer}, errs)
+	n := verif.Param("N", 4)
+	step := make(chan struct{})
+	added := 0
+	go func() {
+		for i := 0; i < n; i++ {
+			<-step
+			bo.HandleEvent(&workerpb.Event{Event: &workerpb.Event_KeyedEvent{KeyedEvent: &handlerpb.KeyedEvent{Key: []byte("k"), Value: []byte{byte(i)}}}})
+			added = i + 1
+		}
+	}()
+	started, timeouts := 0, 0
+	for started < n {
+		var actions []int
+		if added == started { // the previous hand-over returned
+			actions = append(actions, 0)
+		}
+		if timer.do != nil && timeouts < verif.Param("TIMEOUTS", 2) {
+			actions = append(actions, 1)
+		}
+		if down.held > 0 {
+			actions = append(actions, 2)
+		}
+		if len(actions) == 0 {
+			break
+		}
+		switch actions[verif.Choose("action", len(actions))] {
+		case 0:
+			started++
+			step <- struct{}{}
+		case 1:
+			timer.fire()
+			timeouts++
+		case 2:
+			down.gate <- struct{}{}
+		}
+		verif.Quiesce()
+	}
+	// the operator catches up and every time-out expires
+	for i := 0; i < 6; i++ {
+		if down.held > 0 {
+			down.gate <- struct{}{}
+		}
+		timer.fire()
+		verif.Quiesce()
+	}
+	verif.Assert(added == n, "every-hand-over-returns")
+	verif.Assert(len(down.stream) == n, "every-event-delivered-exactly-once")
+	for i, ev := range down.stream {
+		verif.Assert(int(ev.GetKeyedEvent().Value[0]) == i, "events-delivered-in-hand-over-order")
+	}
+	verif.Reached()
+}
